@@ -1,4 +1,5 @@
 import IncrVerif.Driver.Pure
+import IncrVerif.Engine.Run
 /-! Driver executable: runs the model on the same line protocols as the Rust harness. -/
 open IncrVerif.Driver
 
@@ -8,10 +9,21 @@ partial def lineLoop (h : IO.FS.Stream) (out : IO.FS.Stream) (f : String → Str
   if !(trim line).isEmpty then out.putStrLn (f line)
   lineLoop h out f
 
+partial def readAll (h : IO.FS.Stream) (acc : String) : IO String := do
+  let line ← h.getLine
+  if line.isEmpty then return acc
+  readAll h (acc ++ line)
+
 def main (args : List String) : IO UInt32 := do
   let stdin ← IO.getStdin
   let stdout ← IO.getStdout
   match args with
   | ["pure"] => lineLoop stdin stdout pureOne; stdout.flush; return 0
+  | ["engine"] => do
+    let text ← readAll stdin ""
+    for l in IncrVerif.Engine.runHistory (IncrVerif.Engine.parseHistory text) do
+      stdout.putStrLn l
+    stdout.flush
+    return 0
   | ["pure-check"] => lineLoop stdin stdout pureCheckOne; stdout.flush; return 0
   | _ => IO.eprintln "usage: driver pure < cases"; return 2
